@@ -118,41 +118,60 @@ func c20R1(r *Report) {
 	})
 	// find loads of Offset/Length whose base is the matched entry
 	entryOK := func(base ssa.Value) bool {
-		// base is a phi/alloc of *Torfile; every non-nil definition must be `&f` created under Equal(pth, f.Path)
-		return derivesOnlyFrom(base, func(v ssa.Value) bool {
+		// base is a phi of (nil, &f): every non-nil edge must come from a block dominated by Equal(pth, f.Path) == true
+		// for that same f
+		equalOn := func(al *ssa.Alloc, b *ssa.BasicBlock, from *ssa.BasicBlock) bool {
+			gs := guardsOf(b)
+			if from != nil {
+				gs = append(gs, edgeGuard(from, b)...)
+			}
+			for _, g := range gs {
+				g = g.norm()
+				c, ok := g.Cond.(*ssa.Call)
+				if !ok || !g.Pol {
+					continue
+				}
+				cal := c.Call.StaticCallee()
+				if cal == nil || cal.Name() != "Equal" || relPkg(cal) != "path" {
+					continue
+				}
+				for k, a := range c.Call.Args[:2] {
+					other := c.Call.Args[1-k]
+					if a != ssa.Value(pth) {
+						continue
+					}
+					if fv, b2 := loadedField(other); fv != nil && fv.Name() == "Path" && b2 == ssa.Value(al) {
+						return true
+					}
+				}
+			}
+			return false
+		}
+		var rec func(v ssa.Value, at *ssa.BasicBlock, from *ssa.BasicBlock, d int) bool
+		rec = func(v ssa.Value, at *ssa.BasicBlock, from *ssa.BasicBlock, d int) bool {
+			if d > 5 {
+				return false
+			}
 			if isNilConst(v) {
 				return true
 			}
-			al, ok := v.(*ssa.Alloc)
-			if !ok {
-				return false
-			}
-			// the alloc is the per-iteration copy f; it is selected on a path dominated by Equal(pth, f.Path)
-			good := false
-			for _, ref := range *al.Referrers() {
-				fa, ok := ref.(*ssa.FieldAddr)
-				if !ok || fieldVar(fa).Name() != "Path" {
-					continue
-				}
-				for _, r2 := range *fa.Referrers() {
-					ld, ok := r2.(*ssa.UnOp)
-					if !ok {
+			switch x := v.(type) {
+			case *ssa.Alloc:
+				return at != nil && equalOn(x, at, from)
+			case *ssa.Phi:
+				for i, e := range x.Edges {
+					if e == ssa.Value(x) {
 						continue
 					}
-					for _, r3 := range *ld.Referrers() {
-						c, ok := r3.(*ssa.Call)
-						if !ok {
-							continue
-						}
-						cal := c.Call.StaticCallee()
-						if cal != nil && cal.Name() == "Equal" && relPkg(cal) == "path" && (c.Call.Args[0] == ssa.Value(pth) || c.Call.Args[1] == ssa.Value(pth)) {
-							good = true
-						}
+					if !rec(e, x.Block().Preds[i], nil, d+1) && !rec(e, x.Block(), x.Block().Preds[i], d+1) {
+						return false
 					}
 				}
+				return true
 			}
-			return good
-		})
+			return false
+		}
+		return rec(base, nil, nil, 0)
 	}
 	nUse := 0
 	allInstrs(fp, func(in ssa.Instruction) {
